@@ -89,6 +89,13 @@ extern "C" fn on_cpu_deadline(_sig: libc::c_int) {
     unsafe { libc::_exit(EXIT_CPU_DEADLINE) }
 }
 
+fn disarm_cpu_deadline() {
+    unsafe {
+        let it = libc::itimerval { it_interval: libc::timeval { tv_sec: 0, tv_usec: 0 }, it_value: libc::timeval { tv_sec: 0, tv_usec: 0 } };
+        libc::setitimer(libc::ITIMER_PROF, &it, std::ptr::null_mut());
+    }
+}
+
 fn arm_cpu_deadline() {
     unsafe {
         let it = libc::itimerval { it_interval: libc::timeval { tv_sec: 0, tv_usec: 0 }, it_value: libc::timeval { tv_sec: SEG_CPU_DEADLINE_MS / 1000, tv_usec: (SEG_CPU_DEADLINE_MS % 1000) * 1000 } };
@@ -128,89 +135,219 @@ fn signal_name(sig: i32) -> String {
     }
 }
 
-/// Run `body` in a forked child of the (single-threaded) worker process and turn every way the child can end into a
-/// verdict whose key names the family of the segment that was executing:
-///   normal end            -> the verdict computed by `body`
-///   killed by a signal    -> abort|<signal>|<family>        (stack overflow, allocation failure abort, ...)
-///   CPU deadline          -> work.cpu|<family>              (more than SEG_CPU_DEADLINE_MS of CPU in one segment)
-///   heap cap              -> heapcap|<family>
-///   asleep, no progress   -> stall.sleep|<family>
-/// CPU time, not wall time, decides: the verdict does not depend on the load of the machine.
-///
-/// If the child died in segment k with a key that an open finding covers, the stream is run again without segment k
-/// (look behind the known defect); an uncovered failure found that way is reported instead, otherwise the covered one.
-pub fn isolate(family_of: &dyn Fn(u16) -> String, known: &Known, body: &dyn Fn(&Reporter, &[u16]) -> Verdict) -> Verdict {
-    if std::env::var_os("C20_NOFORK").is_some() {
-        return body(&Reporter { fd: -1 }, &[]);
-    }
-    let mut removed: Vec<u16> = Vec::new();
-    let mut first_death: Option<Verdict> = None;
-    loop {
-        let (v, died_at) = isolate_once(family_of, &|rep| body(rep, &removed));
-        match (&v, died_at) {
-            (Verdict::Fail { key, .. }, Some(at)) if known.covers(key) && at < IDX_SETUP && removed.len() < 6 => {
-                removed.push(at);
-                if first_death.is_none() {
-                    first_death = Some(v);
-                }
-            }
-            (Verdict::Fail { key, .. }, _) if !known.covers(key) => return v,
-            _ => return first_death.unwrap_or(v),
-        }
-    }
+/// The child process of this worker: it evaluates one case after the other and is replaced when it dies or is killed.
+struct Child {
+    pid: i32,
+    tx: RawFd,
+    rx: RawFd,
 }
 
-/// one child; returns the verdict and, if the child did not deliver one itself, the segment it died in
-fn isolate_once(family_of: &dyn Fn(u16) -> String, body: &dyn Fn(&Reporter) -> Verdict) -> (Verdict, Option<u16>) {
-    let mut fds = [0 as RawFd; 2];
-    if unsafe { libc::pipe2(fds.as_mut_ptr(), libc::O_CLOEXEC) } != 0 {
-        return (Verdict::discard("pipe2 failed"), None);
-    }
-    let pid = unsafe { libc::fork() };
-    if pid < 0 {
-        unsafe {
-            libc::close(fds[0]);
-            libc::close(fds[1]);
+thread_local! {
+    static CHILD: std::cell::RefCell<Option<Child>> = const { std::cell::RefCell::new(None) };
+}
+
+#[derive(serde::Serialize, serde::Deserialize)]
+struct Request<C> {
+    case: C,
+    removed: Vec<u16>,
+}
+
+fn write_all(fd: RawFd, mut b: &[u8]) -> bool {
+    while !b.is_empty() {
+        let n = unsafe { libc::write(fd, b.as_ptr() as *const libc::c_void, b.len()) };
+        if n <= 0 {
+            if n < 0 && std::io::Error::last_os_error().kind() == std::io::ErrorKind::Interrupted {
+                continue;
+            }
+            return false;
         }
-        return (Verdict::discard("fork failed"), None);
+        b = &b[n as usize..];
     }
-    if pid == 0 {
-        // ---- child: never returns into the worker loop
-        unsafe {
-            libc::close(fds[0]);
-            libc::prctl(libc::PR_SET_PDEATHSIG, libc::SIGKILL);
+    true
+}
+
+fn read_exact(fd: RawFd, b: &mut [u8]) -> bool {
+    let mut off = 0;
+    while off < b.len() {
+        let n = unsafe { libc::read(fd, b[off..].as_mut_ptr() as *mut libc::c_void, b.len() - off) };
+        if n <= 0 {
+            if n < 0 && std::io::Error::last_os_error().kind() == std::io::ErrorKind::Interrupted {
+                continue;
+            }
+            return false;
         }
-        unsafe { libc::signal(libc::SIGPROF, on_cpu_deadline as *const () as usize) };
-        arm_cpu_deadline();
-        let rep = Reporter { fd: fds[1] };
-        let v = match panics::guarded(|| body(&rep)) {
-            Ok(v) => v,
-            Err((sig, msg)) => Verdict::Fail { key: normalise_panic_key(&sig), msg },
+        off += n as usize;
+    }
+    true
+}
+
+/// child side: serve requests until the parent goes away; never returns
+fn child_main<C: serde::de::DeserializeOwned>(rx: RawFd, tx: RawFd, body: &dyn Fn(&C, &Reporter, &[u16]) -> Verdict) -> ! {
+    unsafe {
+        libc::prctl(libc::PR_SET_PDEATHSIG, libc::SIGKILL);
+        libc::signal(libc::SIGPROF, on_cpu_deadline as *const () as usize);
+    }
+    let rep = Reporter { fd: tx };
+    loop {
+        let mut len = [0u8; 4];
+        if !read_exact(rx, &mut len) {
+            unsafe { libc::_exit(0) }
+        }
+        let mut buf = vec![0u8; u32::from_le_bytes(len) as usize];
+        if !read_exact(rx, &mut buf) {
+            unsafe { libc::_exit(0) }
+        }
+        let v = match serde_json::from_slice::<Request<C>>(&buf) {
+            Ok(req) => match panics::guarded(|| body(&req.case, &rep, &req.removed)) {
+                Ok(v) => v,
+                Err((sig, msg)) => Verdict::Fail { key: normalise_panic_key(&sig), msg },
+            },
+            Err(e) => Verdict::discard(format!("child cannot decode the case: {e}")),
         };
+        disarm_cpu_deadline();
         let js = serde_json::to_vec(&v).unwrap_or_default();
         let mut frame = Vec::with_capacity(js.len() + 5);
         frame.push(0x5A);
         frame.extend_from_slice(&(js.len() as u32).to_le_bytes());
         frame.extend_from_slice(&js);
-        let mut off = 0;
-        while off < frame.len() {
-            let n = unsafe { libc::write(fds[1], frame[off..].as_ptr() as *const libc::c_void, frame.len() - off) };
-            if n <= 0 {
-                break;
-            }
-            off += n as usize;
+        if !write_all(tx, &frame) {
+            unsafe { libc::_exit(0) }
         }
-        unsafe { libc::_exit(0) }
     }
-    // ---- parent
-    unsafe { libc::close(fds[1]) };
+}
+
+fn spawn_child<C: serde::de::DeserializeOwned>(body: &dyn Fn(&C, &Reporter, &[u16]) -> Verdict) -> Option<Child> {
+    let mut down = [0 as RawFd; 2];
+    let mut up = [0 as RawFd; 2];
+    unsafe {
+        if libc::pipe2(down.as_mut_ptr(), libc::O_CLOEXEC) != 0 {
+            return None;
+        }
+        if libc::pipe2(up.as_mut_ptr(), libc::O_CLOEXEC) != 0 {
+            libc::close(down[0]);
+            libc::close(down[1]);
+            return None;
+        }
+    }
+    let pid = unsafe { libc::fork() };
+    if pid < 0 {
+        unsafe {
+            for fd in [down[0], down[1], up[0], up[1]] {
+                libc::close(fd);
+            }
+        }
+        return None;
+    }
+    if pid == 0 {
+        unsafe {
+            libc::close(down[1]);
+            libc::close(up[0]);
+        }
+        child_main::<C>(down[0], up[1], body)
+    }
+    unsafe {
+        libc::close(down[0]);
+        libc::close(up[1]);
+    }
+    Some(Child { pid, tx: down[1], rx: up[0] })
+}
+
+fn reap(c: Child) -> libc::c_int {
+    unsafe {
+        libc::close(c.tx);
+        libc::close(c.rx);
+    }
+    let mut status: libc::c_int = 0;
+    loop {
+        let r = unsafe { libc::waitpid(c.pid, &mut status, 0) };
+        if r >= 0 || std::io::Error::last_os_error().kind() != std::io::ErrorKind::Interrupted {
+            break;
+        }
+    }
+    status
+}
+
+/// Evaluate `case` with `body` in a child process of the (single-threaded) worker and turn every way the child can end
+/// into a verdict whose key names the family of the segment that was executing:
+///   answer                -> the verdict computed by `body`
+///   killed by a signal    -> abort|<signal>|<family>        (stack overflow, allocation failure abort, ...)
+///   CPU deadline          -> work.cpu|<family>              (more than SEG_CPU_DEADLINE_MS of CPU in one segment)
+///   heap cap              -> heapcap|<family>
+///   asleep, no progress   -> stall.sleep|<family>
+/// CPU time, not wall time, decides. The child serves one case after the other (a fork per case costs more than the
+/// case); it is replaced when it has died or was killed.
+///
+/// If the child died in segment k with a key that an open finding covers, the stream is run again without segment k
+/// (look behind the known defect); an uncovered failure found that way is reported instead, otherwise the covered one.
+pub fn isolate<C: serde::Serialize + serde::de::DeserializeOwned + Clone>(
+    case: &C,
+    family_of: &dyn Fn(u16) -> String,
+    known: &Known,
+    body: &dyn Fn(&C, &Reporter, &[u16]) -> Verdict,
+) -> Verdict {
+    if std::env::var_os("C20_NOFORK").is_some() {
+        return body(case, &Reporter { fd: -1 }, &[]);
+    }
+    let mut removed: Vec<u16> = Vec::new();
+    let mut first_death: Option<Verdict> = None;
+    loop {
+        let (v, died_at) = isolate_once(case, &removed, family_of, body);
+        let covered = matches!(&v, Verdict::Fail { key, .. } if known.covers(key));
+        let failed = matches!(&v, Verdict::Fail { .. });
+        match died_at {
+            Some(at) if covered && at < IDX_SETUP && removed.len() < 6 => {
+                removed.push(at);
+                if first_death.is_none() {
+                    first_death = Some(v);
+                }
+            }
+            _ if failed && !covered => return v,
+            _ => return first_death.unwrap_or(v),
+        }
+    }
+}
+
+/// one request; returns the verdict and, if the child did not deliver one itself, the segment it died in
+fn isolate_once<C: serde::Serialize + serde::de::DeserializeOwned + Clone>(
+    case: &C,
+    removed: &[u16],
+    family_of: &dyn Fn(u16) -> String,
+    body: &dyn Fn(&C, &Reporter, &[u16]) -> Verdict,
+) -> (Verdict, Option<u16>) {
+    let mut child = match CHILD.with(|c| c.borrow_mut().take()) {
+        Some(c) => c,
+        None => match spawn_child::<C>(body) {
+            Some(c) => c,
+            None => return (Verdict::discard("fork failed"), None),
+        },
+    };
+    let req = serde_json::to_vec(&Request { case: case.clone(), removed: removed.to_vec() }).unwrap_or_default();
+    let mut frame = Vec::with_capacity(req.len() + 4);
+    frame.extend_from_slice(&(req.len() as u32).to_le_bytes());
+    frame.extend_from_slice(&req);
+    if !write_all(child.tx, &frame) {
+        // the child is gone (it cannot have died of this case): replace it once
+        reap(child);
+        child = match spawn_child::<C>(body) {
+            Some(c) => c,
+            None => return (Verdict::discard("fork failed"), None),
+        };
+        if !write_all(child.tx, &frame) {
+            reap(child);
+            return (Verdict::discard("child process not reachable"), None);
+        }
+    }
+    let pid = child.pid;
     let mut data: Vec<u8> = Vec::new();
     let mut buf = [0u8; 65536];
+    let mut at: u16 = IDX_SETUP;
+    let mut verdict: Option<Verdict> = None;
     let mut samples: std::collections::VecDeque<(char, u64)> = std::collections::VecDeque::new();
     let mut asleep = false;
+    let mut killed = false;
     let t0 = Instant::now();
-    loop {
-        let mut pfd = libc::pollfd { fd: fds[0], events: libc::POLLIN, revents: 0 };
+    'wait: loop {
+        let mut pfd = libc::pollfd { fd: child.rx, events: libc::POLLIN, revents: 0 };
         let r = unsafe { libc::poll(&mut pfd, 1, 700) };
         if r < 0 {
             if std::io::Error::last_os_error().kind() == std::io::ErrorKind::Interrupted {
@@ -229,60 +366,58 @@ fn isolate_once(family_of: &dyn Fn(u16) -> String, body: &dyn Fn(&Reporter) -> V
             let sleeping = samples.len() == 6 && samples.iter().filter(|s| s.0 == 'S').count() >= 5 && samples.back().unwrap().1 - samples.front().unwrap().1 <= 5;
             if sleeping || t0.elapsed() > Duration::from_secs(100) {
                 asleep = sleeping;
+                killed = true;
                 unsafe { libc::kill(pid, libc::SIGKILL) };
                 break;
             }
             continue;
         }
         samples.clear();
-        let n = unsafe { libc::read(fds[0], buf.as_mut_ptr() as *mut libc::c_void, buf.len()) };
+        let n = unsafe { libc::read(child.rx, buf.as_mut_ptr() as *mut libc::c_void, buf.len()) };
         if n <= 0 {
-            break;
+            break; // EOF: the child is dead
         }
         data.extend_from_slice(&buf[..n as usize]);
-    }
-    unsafe { libc::close(fds[0]) };
-    let mut status: libc::c_int = 0;
-    loop {
-        let r = unsafe { libc::waitpid(pid, &mut status, 0) };
-        if r >= 0 || std::io::Error::last_os_error().kind() != std::io::ErrorKind::Interrupted {
-            break;
-        }
-    }
-    // decode the records
-    let mut at: u16 = IDX_SETUP;
-    let mut verdict: Option<Verdict> = None;
-    let mut i = 0;
-    while i < data.len() {
-        match data[i] {
-            0xA5 if i + 2 < data.len() => {
-                at = data[i + 1] as u16 | (data[i + 2] as u16) << 8;
-                i += 3;
-            }
-            0x5A if i + 4 < data.len() => {
-                let n = u32::from_le_bytes([data[i + 1], data[i + 2], data[i + 3], data[i + 4]]) as usize;
-                if i + 5 + n <= data.len() {
-                    verdict = serde_json::from_slice(&data[i + 5..i + 5 + n]).ok();
+        // decode complete records
+        let mut i = 0;
+        loop {
+            match data.get(i) {
+                Some(0xA5) if i + 2 < data.len() => {
+                    at = data[i + 1] as u16 | (data[i + 2] as u16) << 8;
+                    i += 3;
                 }
-                i += 5 + n;
+                Some(0x5A) if i + 4 < data.len() => {
+                    let len = u32::from_le_bytes([data[i + 1], data[i + 2], data[i + 3], data[i + 4]]) as usize;
+                    if i + 5 + len > data.len() {
+                        break;
+                    }
+                    verdict = serde_json::from_slice(&data[i + 5..i + 5 + len]).ok();
+                    if verdict.is_none() {
+                        verdict = Some(Verdict::discard("undecodable answer of the child process"));
+                    }
+                    break 'wait;
+                }
+                _ => break,
             }
-            _ => break,
         }
+        data.drain(..i);
     }
     if let Some(v) = verdict {
+        CHILD.with(|c| *c.borrow_mut() = Some(child));
         return (v, None);
     }
+    let status = reap(child);
     let fam = family_of(at);
     let died = |v: Verdict| (v, Some(at));
     let sfam = mechanism_family(&fam);
     if asleep {
         return died(Verdict::fail(format!("stall.sleep|{sfam}"), "the emulation went to sleep inside print_char/get_next_action and used next to no CPU for 4 s (killed)".to_string()));
     }
+    if killed {
+        return died(Verdict::fail(format!("hang|{fam}"), "no result within 100 s wall although the process was not asleep (killed)".to_string()));
+    }
     if libc::WIFSIGNALED(status) {
         let n = signal_name(libc::WTERMSIG(status));
-        if libc::WTERMSIG(status) == libc::SIGKILL {
-            return died(Verdict::fail(format!("hang|{fam}"), "no result within 100 s wall although the process was not asleep (killed)".to_string()));
-        }
         return died(Verdict::fail(format!("abort|{n}|{fam}"), format!("process killed by {n} while executing this command")));
     }
     let code = if libc::WIFEXITED(status) { libc::WEXITSTATUS(status) } else { -1 };
@@ -414,16 +549,16 @@ pub fn drive(infos: &[SegInfo], removed: &[u16], known: &Known, label: &str, run
         let suspicious_cpu: Vec<usize> = r.times.iter().filter(|(i, cpu, _)| *cpu > cpu_limit(infos[*i].len)).map(|t| t.0).collect();
         let suspicious_blk: Vec<usize> = r.times.iter().filter(|(_, _, b)| *b > BLOCKED_LIMIT_US).map(|t| t.0).collect();
         if !suspicious_cpu.is_empty() || !suspicious_blk.is_empty() {
-            // CPU time is taken as measured (it does not depend on the load of the machine; what is over the limit here is over
-            // it by orders of magnitude). Blocked time is measured again twice (a page fault storm or a stopped process is not a sleep).
+            // Measure again and keep the smaller figures: a figure over the limit must reproduce. (CPU time does not depend on the
+            // load of this machine, but inside a virtual machine it includes time the hypervisor took the CPU away: a 29 s "CPU"
+            // reading for a trivial command was seen once. Blocked time: a stopped process is not a sleep either.)
             let mut best = r.times.clone();
-            if !suspicious_blk.is_empty() {
-                for _ in 0..2 {
-                    let r2 = run(&alive);
-                    for t in best.iter_mut() {
-                        if let Some(u) = r2.times.iter().find(|u| u.0 == t.0) {
-                            t.2 = t.2.min(u.2);
-                        }
+            for _ in 0..if suspicious_blk.is_empty() { 1 } else { 2 } {
+                let r2 = run(&alive);
+                for t in best.iter_mut() {
+                    if let Some(u) = r2.times.iter().find(|u| u.0 == t.0) {
+                        t.1 = t.1.min(u.1);
+                        t.2 = t.2.min(u.2);
                     }
                 }
             }
@@ -431,7 +566,7 @@ pub fn drive(infos: &[SegInfo], removed: &[u16], known: &Known, label: &str, run
             for (i, cpu, blk) in best {
                 let lim = cpu_limit(infos[i].len);
                 if cpu > lim {
-                    timing.push((i, Fail { key: format!("work.cpu|{}", infos[i].fam), msg: format!("one command of segment {i} ({} bytes) took {} ms CPU (limit {} ms)", infos[i].len, cpu / 1000, lim / 1000) }));
+                    timing.push((i, Fail { key: format!("work.cpu|{}", infos[i].fam), msg: format!("one command of segment {i} ({} bytes) took {} ms CPU in the faster of two runs (limit {} ms)", infos[i].len, cpu / 1000, lim / 1000) }));
                 }
                 if blk > BLOCKED_LIMIT_US {
                     timing.push((i, Fail { key: format!("stall.sleep|{}", mechanism_family(&infos[i].fam)), msg: format!("segment {i} spent {} ms neither running nor waiting for a CPU (sleeping inside print_char/get_next_action), in each of 3 runs", blk / 1000) }));
